@@ -10,7 +10,7 @@
    document order and every definition has one (what freephil.parse produces; the correspondence
    stream evaluates doc_ordered on every parsed tree it uses). *)
 From Coq Require Import List Ascii String Bool Arith.
-From Phil Require Import Base Tree Vars VarsProofs VarsOrder.
+From Phil Require Import Base Tree Vars VarsProofs VarsOrder Parser ParserShape.
 Import ListNotations.
 Local Open Scope char_scope.
 
@@ -325,3 +325,8 @@ Example C12_example_agree :   (* editing the later x = 3 and appending objects k
       Def (hd_ "x" false 6 6) [w_ "changed" 6] []; Def (hd_ "y" false 7 7) [w_ "new" 7] []] [];
    Def (hd_ "x" false 8 9) [w_ "9" 9] []].
 Proof. vm_compute. reflexivity. Qed.
+
+(* the hypothesis doc_ordered of the theorems above holds for EVERY document the parser (model) accepts *)
+Theorem C12_parsed_documents_are_ordered : forall o s l, parse o s = Ok l -> doc_ordered l = true.
+Proof. exact parse_doc_ordered. Qed.
+Print Assumptions C12_parsed_documents_are_ordered.
